@@ -30,6 +30,18 @@ func (g *Gen) macPayloadSweep(withInto bool) {
 		for i := 0; i < n; i++ {
 			g.add("macenc " + g.genPayloadTok(name, i%3))
 		}
+		// every boundary value of every field once, the other fields inside the specification
+		ds := payloadDomains[name]
+		for j, d := range ds {
+			for _, v := range fieldEdges(d) {
+				parts := make([]string, len(ds))
+				for i, e := range ds {
+					parts[i] = strconv.FormatInt(g.genField(e, 0), 10)
+				}
+				parts[j] = strconv.FormatInt(v, 10)
+				g.add("macenc " + name + "(" + strings.Join(parts, ",") + ")")
+			}
+		}
 	}
 	// decoders: exhaustive for 1-byte payloads, all values of 2-byte payloads in the thorough tier
 	for _, e := range builtinRegistry() {
@@ -136,6 +148,9 @@ func genC07(g *Gen) {
 		if g.r.Chance(1, 10) {
 			cid = g.r.Intn(128)
 		}
+		if h < 8 { // the ends of the proprietary range and their neighbours
+			cid = []int{127, 128, 255, 256, 129, 254, 0, 300}[h]
+		}
 		size := g.r.Intn(6)
 		if g.r.Chance(1, 10) {
 			size = g.r.Pick(0, 15, 16, 40)
@@ -150,8 +165,10 @@ func genC07(g *Gen) {
 		g.streamOps(reg, g.scale(8, 40))
 		// the proprietary CID in both directions with exactly `size` bytes following
 		body := g.r.Bytes(size + 2)
-		g.addf("stream %d x%02x%s", b2i(up), cid, hx(body)[1:])
-		g.addf("stream %d x%02x%s", b2i(!up), cid, hx(body)[1:])
+		if cid <= 255 {
+			g.addf("stream %d x%02x%s", b2i(up), cid, hx(body)[1:])
+			g.addf("stream %d x%02x%s", b2i(!up), cid, hx(body)[1:])
+		}
 	}
 }
 
@@ -175,13 +192,20 @@ func genC01(g *Gen) {
 		g.add("phyrt " + f)
 		if b := encodeFrameTok(f); b != nil {
 			g.add("phydec " + hx(b))
-			if i%10 == 0 {
-				g.add("phytextenc " + f)
-			}
-			if i%4 == 1 {
-				g.add("phytextrt " + f)
-			}
 		}
+		// text form, also of frames the encoder refuses
+		if i%10 == 0 {
+			g.add("phytextenc " + f)
+		}
+		if i%4 == 1 {
+			g.add("phytextrt " + f)
+		}
+	}
+	// the decode-to-commands entry points on frames whose FOpts / FRMPayload are not one opaque element
+	for i := 0; i < g.scale(300, 5000); i++ {
+		f := g.genDataFrame(reg, frameOpts{mtype: -1, valid: false, encrypted: i%2 == 0})
+		g.add("phydecodefopts " + f)
+		g.add("phydecodefrm " + f)
 	}
 	// decode FOpts / FRMPayload as commands
 	for i := 0; i < g.scale(1500, 50000); i++ {
@@ -293,6 +317,9 @@ func genC02(g *Gen) {
 				g.add("valup " + args + " " + f)
 				keys := strings.Fields(args)
 				g.add("valupf " + keys[4] + " " + withMIC)
+			} else { // the MIC cannot be computed (frame not serialisable): validation must report the error, not false
+				g.add("valup " + args + " " + f)
+				g.add("valupf " + strings.Fields(args)[4] + " " + f)
 			}
 		} else {
 			args := fmt.Sprintf("%d %d %s", ver, conf, g.key())
@@ -301,6 +328,8 @@ func genC02(g *Gen) {
 			if strings.HasPrefix(res, "ok x") {
 				g.add("valdown " + args + " " + replaceMIC(f, res[3:]))
 				g.add("valdown " + args + " " + f)
+			} else {
+				g.add("valdown " + args + " " + f)
 			}
 		}
 	}
@@ -308,6 +337,9 @@ func genC02(g *Gen) {
 	for i := 0; i < 40; i++ {
 		g.add(fmt.Sprintf("micup 1 0 0 0 %s %s ", g.key(), g.key()) + g.genJoinFrame([]string{"JR", "JA", "RJ1", "PROP"}[i%4], true))
 		g.add(fmt.Sprintf("micdown 1 0 %s ", g.key()) + g.genJoinFrame([]string{"JR", "JA", "RJ1", "PROP"}[i%4], true))
+		g.add(fmt.Sprintf("valup %d 0 0 0 %s %s ", i%2, g.key(), g.key()) + g.genJoinFrame([]string{"JR", "JA", "RJ1", "PROP"}[i%4], true))
+		g.add(fmt.Sprintf("valupf %s ", g.key()) + g.genJoinFrame([]string{"JR", "JA", "RJ1", "PROP"}[i%4], true))
+		g.add(fmt.Sprintf("valdown %d 0 %s ", i%2, g.key()) + g.genJoinFrame([]string{"JR", "JA", "RJ1", "PROP"}[i%4], true))
 	}
 }
 
@@ -410,6 +442,10 @@ func genC04(g *Gen) {
 		g.add("micja 255 1 1 " + g.key() + " " + g.genJoinFrame([]string{"JR", "RJ1", "PROP"}[i%3], true))
 		g.add("encja " + g.key() + " " + g.genJoinFrame([]string{"JR", "RJ1", "PROP"}[i%3], true))
 		g.add("decja " + g.key() + " 1 0 " + hx(g.r.Bytes(4)) + " DATA " + hx(g.r.Bytes(g.r.Pick(0, 1, 12, 28, 11, 27, 44, 60))))
+		// validation on a payload of the wrong kind reports the error, not false
+		g.add("valjoin " + g.key() + " " + g.genJoinFrame([]string{"JA", "PROP"}[i%2], true))
+		g.add("micjoin " + g.key() + " " + g.genJoinFrame([]string{"JA", "PROP"}[i%2], true))
+		g.add("valja 255 1 1 " + g.key() + " " + g.genJoinFrame([]string{"JR", "RJ1", "PROP"}[i%3], true))
 	}
 }
 
